@@ -108,6 +108,50 @@ def build_schedule(req):
         out.append(ctx_end_label(10 ** 12))
     return out, problems
 
+CL_INNER = dict(recv='LRecv', recv_closed='LRecvClosed', ctx='LCtx', send='LSend', skip='LSkip', cancel='LCancel', close='LClose', hook='LHook',
+                etimeout='ETimeout', esub='ESubClose')
+
+def caller_schedule(req, sched):
+    """listener-level labels -> labels of the composed system caller + listener (ReqReply/Caller.v).  Returns (labels, expected end) or None.
+    The caller's steps inside the library carry no stamps: SendWithReply's receive and its deferred cancel are placed where the
+    listener-level mapper placed the read / the end of the context (both are sound: the real steps happened no later)."""
+    if req.get('read_timeouts'):
+        return None
+    out = ['KSendOk']
+    if req['api'] == 0:
+        m = dict(read='URead', read_closed='UReadClosed', ecancel='UParent' if req['end'] == 1 else 'UCancel')
+        for l in sched:
+            out.append(m[l] if l in m else '(CL %s)' % CL_INNER[l])
+        return out, 0
+    got = req.get('got') or []
+    err = req.get('send_err') or ''
+    if got and not err: end = 1
+    elif 'context closed' in err and not got: end = 2
+    else: return None
+    kp = 'select'; parent = False
+    def finish():
+        nonlocal kp
+        if kp == 'select' and end == 1 and 'read' in sched: out.append('KTakeReply'); kp = 'defer'
+        if kp == 'select' and end == 2 and parent: out.append('KTakeCtx'); kp = 'defer'
+        if kp == 'defer': out.append('KCancel'); kp = 'returned'
+    for l in sched:
+        if l == 'read':
+            if kp == 'select': out.append('KTakeReply'); kp = 'defer'
+        elif l == 'ecancel':
+            if req['end'] == 1 and not parent:
+                out.append('UParent'); parent = True
+                if end == 2: finish()
+            else:
+                finish()
+        elif l == 'read_closed':
+            return None
+        else:
+            out.append('(CL %s)' % CL_INNER[l])
+    if end == 2 and not parent:
+        out.append('UParent'); parent = True
+    finish()
+    return out, end
+
 def read_total(evs):
     return sum(1 for e in evs if e[1] == 'c18.caller.read')
 
@@ -191,13 +235,14 @@ def run_once(ctx, res, seed, n, reqs, tag):
     binary = C.build_harness()
     data, _ = C.run_harness(binary, ['c18', '-seed', str(seed), '-n', str(n), '-reqs', str(reqs)] + (['-glue'] if tag == 'a' or tag == 'a0' else []), pid, 'c18_%s.json' % tag)
     run_glue(ctx, res, data)
-    lcases = []; dcases = []
+    lcases = []; dcases = []; ccases = []
     for sc in data['scenarios']:
         res.count('scenarios')
         res.count('concurrent_requests=%d' % len(sc['reqs']))
         res.count('ack_errors=%s' % sc['ack_errors']); res.count('reply_error_handler=%s' % sc['has_errh'])
         res.count('handler=%s' % ('with result' if sc['with_result'] else 'no result')); res.count('finished_hook=%s' % sc['has_hook'])
         res.count('backend_timeout=%s' % bool(sc['timeout_ms']))
+        res.count('marshaler=%s' % ('custom (bogus op id + extra key)' if sc.get('custom_marshaler') else 'json'))
         for pr in sc.get('problems') or []:
             res.mismatches.append(dict(kind='harness observed something the scenario does not allow: ' + pr, case=dict(scenario=sc['index'])))
         for req in sc['reqs']:
@@ -233,6 +278,11 @@ def run_once(ctx, res, seed, n, reqs, tag):
             for pr in problems:
                 res.mismatches.append(dict(kind='stamp mapping: ' + pr, case=describe_req(sc, req)))
             lcases.append((sc, req, term, big))
+            if not big:
+                cs = caller_schedule(req, build_schedule(req)[0])
+                if cs is not None:
+                    ccases.append((sc, req, '(CC %s %s %s %d)' % (term, ['ApiReplies', 'ApiReply'][req['api']], C.coq_list(cs[0]), cs[1])))
+                    res.count('caller_thread_replays(%s)' % ['SendWithReplies', 'SendWithReply returned a reply', 'SendWithReply returned the context error'][cs[1]])
             if len(req.get('stream') or []) > 1 or len(req.get('got') or []) > 1:
                 res.nontrivial.add(('listen', len(own), foreign > 0, tuple((r['kind'], r['haserr'], r['haserr'] and not r['err']) for r in (req.get('got') or [])), tuple(r['kind'] for r in (req.get('rest') or [])),
                                     req['api'], req['end'], req['drain'], sc['has_hook'], bool(sc['timeout_ms'])))
@@ -269,6 +319,15 @@ def run_once(ctx, res, seed, n, reqs, tag):
             what = ('the model refuses label #%d of the replayed schedule' % (code - 1000)) if code >= 1000 else \
                    'end state differs: ' + ', '.join(n for b, n in [(1, 'replies read'), (2, 'replies left in the channel'), (4, 'notifications taken/acked'), (8, 'channel closed'), (16, 'hook calls'), (32, 'listener finished'), (64, 'implementation parked where the model can move')] if code & b)
             res.mismatches.append(dict(kind='Corr.C18.c18_listen_code (ReqReply/Listen.v vs ListenForNotifications): ' + what, explained_by_violation=i in vio, case=describe_req(sc, req)))
+    for part, chunk in enumerate(C.chunks(ccases, 150)):
+        r = C.coq_eval(pid, 'cases_%s_c%d' % (tag, part), HEADER.replace('Corr.C18.', 'ReqReply.Caller Corr.C18.') + 'Definition cases : list c18_caller_case := %s.\n' % C.coq_list([c[2] for c in chunk]),
+                       [('R_mis', 'c18_caller_mismatches cases')])
+        for i, code in r['R_mis']:
+            sc, req, _ = chunk[i]
+            what = ('the composed model refuses label #%d of the caller+listener schedule' % (code - 1000)) if code >= 1000 else \
+                   'the caller thread ended differently (returned reply / context error / user owns the channel)' if code == 500 else 'listener end state differs (bits %d)' % code
+            res.mismatches.append(dict(kind='Corr.C18.c18_caller_code (ReqReply/Caller.v vs command_bus.go SendWithReply/SendWithReplies): ' + what,
+                                       explained_by_violation=not req['done'], case=dict(describe_req(sc, req), composed_schedule=caller_schedule(req, build_schedule(req)[0])[0])))
     for part, chunk in enumerate(C.chunks(dcases, 300)):
         r = C.coq_eval(pid, 'cases_%s_d%d' % (tag, part), HEADER + 'Definition cases : list c18_proc_case := %s.\n' % C.coq_list([c[3] for c in chunk]),
                        [('R_mis', 'c18_proc_mismatches cases'), ('R_vio', 'c18_proc_violations cases')])
@@ -327,6 +386,26 @@ def run_glue(ctx, res, data):
         if not c['ok']:
             res.violations.append(dict(signature='C18/api:' + c['name'], what='API glue: ' + c['name'] + ' - not as documented (' + c['info'] + ')', case=c))
 
+def race_round(ctx, res, seed):
+    """TESTING, not proof: the scenario family once more under the Go race detector (the hook runtime and the harness collaborators
+    synchronise through their own mutexes, so a report points into components/requestreply, cqrs, the Router or GoChannel)."""
+    import os, subprocess
+    try:
+        binary = C.build_harness(race=True)
+    except C.CheckError as e:
+        res.extra['race_detector'] = 'race build not available: %s' % str(e)[-200:]
+        return
+    out = os.path.join(C.workdir(ctx['pid']), 'c18_race.json')
+    p = subprocess.run([binary, 'c18', '-seed', str(seed + 17), '-n', '30', '-reqs', '8', '-out', out], env=dict(C.GOENV, GORACE='halt_on_error=0 exitcode=0'),
+                       stdout=subprocess.PIPE, stderr=subprocess.STDOUT, text=True, timeout=1500)
+    reports = p.stdout.count('WARNING: DATA RACE')
+    res.extra['race_detector'] = dict(label='testing', scenarios=30, data_race_reports=reports, exit_code=p.returncode)
+    res.evaluations += 1
+    if reports:
+        i = p.stdout.index('WARNING: DATA RACE')
+        res.violations.append(dict(signature='C18/data-race', what='the Go race detector reports a data race while the request-reply scenarios run (testing tier)',
+                                   case=dict(report=p.stdout[i:i + 3000])))
+
 def run(ctx):
     tier, seed = ctx['tier'], ctx['seed']
     res = C.Result()
@@ -336,6 +415,8 @@ def run(ctx):
         run_once(ctx, res, s, n, reqs, tag)
         if res.violations:
             break
+    if tier == 'thorough' and not res.violations:
+        race_round(ctx, res, seed)
     res.extra['anchor_hashes'] = C.anchor_hashes(ANCHORS)
     res.rule = ('seeded scenarios on a real Router + GoChannel + cqrs CommandBus/CommandProcessor + requestreply.PubSubBackend: 1..6 (second round: up to 16; thorough: 32) concurrent requesters on ONE reply topic, '
                 'scripted handlers (result / error, Nack-redelivery => several replies, injected foreign / id-less / malformed / extra own notifications), AckCommandErrors on/off, reply-publish failures with and without '
